@@ -110,6 +110,8 @@ def main(chk, replay=None):
         chk.traces += 1
         if lab is not None:
             chk.violation('C06/%s/sc=%s/req=%s/%s' % (cont, scf['t'], req['t'], lab), {'scenario': st['scn']}, exp, obs)
+    from harness import session
+    session.run(chk, 'C06')          # spec/Session.tla: the property inside whole analysis sessions
     chk.exhaustive = True
 
 
